@@ -13,7 +13,7 @@ FS_CLASSES = ['content', 'size', 'delete', 'retype', 'stray', 'touch', 'stray-lo
 MAN_CLASSES = ['m-digest', 'm-size', 'm-drop', 'm-ghost', 'm-conflict',
                'm-disjoint-wrong', 'm-unsupported', 'm-chain', 'm-dup-ignore',
                'm-compatible-dup', 'm-dup-manifest-entry', 'm-manifest-dup-wrong',
-               'm-dist-twin', 'm-digest-shared', 'm-digest-shared']
+               'm-dist-twin', 'm-digest-shared', 'm-digest-shared', 'm-upper-digest']
 ODD_CLASSES = ['file-over-dir', 'm-misc-dup', 'm-ignore-file', 'm-entry-for-dir',
                'm-manifest-data-twin']
 UNREG_CLASSES = ['unreg-valid', 'unreg-stale', 'unreg-invalid', 'unreg-badcompressed']
@@ -306,6 +306,19 @@ def mutate(rng, root, layout, info, klass):
         bad = v[:i] + ('0' if v[i] != '0' else '1') + v[i + 1:]
         for _, e in fes:
             e['sums'][h] = bad
+        rec['path'] = f
+    elif klass == 'm-upper-digest':
+        # a correct entry whose digests are written in upper-case hex (as some other
+        # tools do): to gemato, which compares the text, that is another value
+        cands = [f for f in files if any(e['sums'] and any(
+            c in 'abcdef' for v in e['sums'].values() for c in v)
+            for _, e in _file_entries(layout, info, f))]
+        if not cands:
+            return None
+        f = rng.choice(cands)
+        for _, e in _file_entries(layout, info, f):
+            e['sums'] = {k: v.upper() for k, v in e['sums'].items()}
+            rec['hashes'] = sorted(e['sums'])
         rec['path'] = f
     elif klass == 'm-dist-twin':
         # two DIST entries with one name but different size / digests in one Manifest
